@@ -39,6 +39,7 @@ def sha(c):
 class RepoSim:
     def __init__(self, bins, scheme, ids, ignored, beh, with_run=True):
         self.names = SCHEMES[scheme]
+        self.beh_index = beh
         self.ids = ids
         self.ignored = ignored
         tA, tB = self.names["a"], self.names["b"]
@@ -151,7 +152,7 @@ class RepoSim:
             script = os.path.join(fx.root, "failing-git.sh")
             with open(script, "w") as f:
                 # ... by exiting non-zero, or by dying of a signal itself before it has printed anything
-                self._nfaults = getattr(self, "_nfaults", 0) + 1
+                self._nfaults = getattr(self, "_nfaults", (self.beh_index if isinstance(self.beh_index, int) else 0)) + 1
                 f.write("#!/bin/sh\n" + ("kill -9 $PPID\n" if a.get("kill") else "")
                         + ("kill -%s $$\nsleep 5\n" % ("TERM", "KILL", "HUP")[self._nfaults % 3] if self._nfaults % 2 == 0 and not a.get("kill") else "") + "exit 128\n")
             os.chmod(script, 0o755)
